@@ -47,14 +47,25 @@ def summarize(pid, tier, seed, obligations, assumptions, t0, extra=None, level="
                                "distinct_token_classes", "truncated_recursion", "helpers", "shapes", "plan_samples", "samples_tokens",
                                "samples_mismatch") if k in o}
         samples.append(s)
-    nontrivial = len([o for o in held + known if o.get("covers_satisfied", 1) or o.get("vacuity_ok")])
+    def units(o):
+        """decided units of an obligation: the feasible path classes of a symbolic execution (distinct by their path condition), 1 for a Kani harness / single query"""
+        for k in ("classes_checked", "paths"):
+            if isinstance(o.get(k), int) and o[k] > 0:
+                return o[k]
+        return 1
+    ok_obs = [o for o in held + known if o.get("covers_satisfied", 1) or o.get("vacuity_ok")]
+    nontrivial = sum(units(o) for o in ok_obs)
     coverage = {
-        "evaluations": len(obligations),
+        "evaluations": sum(units(o) for o in obligations),
         "distinct_nontrivial": nontrivial,
-        "rule": "one evaluation = one solver obligation (a Kani harness decided by CBMC, or one SMT query from the "
-                "MIR encoder); it counts as non-trivial when it was discharged AND its vacuity witnesses (kani::cover! "
-                "/ satisfiable twin query) came back reachable; obligations are distinct by construction (different "
-                "function, bound or statement)",
+        "rule": "one evaluation = one unit decided by a solver: a Kani harness decided by CBMC, one SMT query of the numeric encoder, or one feasible path class of an "
+                "enum-level symbolic execution (path classes of an obligation are distinct by construction: different path conditions); a unit counts as non-trivial when its "
+                "obligation was discharged AND the obligation's vacuity witnesses (kani::cover! / satisfiable twin query / reached-arms check) came back reachable",
+        "states": sum(units(o) for o in obligations),
+        "transitions": sum((o.get("queries") if isinstance(o.get("queries"), int) else 0) + units(o) for o in obligations),
+        "traces_validated_against_impl": len([o for o in obligations if o.get("native") or o.get("replay")]),
+        "states_rule": "states = symbolic states at which a verdict was asked (feasible path classes / harness entry states); transitions = solver queries issued plus "
+                       "path classes explored; traces_validated_against_impl = obligations whose deviation or finding was replayed against the real build in this run",
         "obligations": len(obligations),
         "discharged": len(held) + len(known),
         "known_findings": len(known),
